@@ -78,12 +78,21 @@ def run_case(case, ctx):
     cls = CLASSES[sub % len(CLASSES)]
     strategy = ["distance", "gain"][(sub // len(CLASSES)) % 2]
     X, k, d, n = make(rng, cls, case.get("tier", "quick"), sub // 12)
+    xdtype = ["float64", "float64", "float64", "float32", "int64"][rng.randint(5)]
+    if xdtype == "float32":
+        X = X.astype(numpy.float32)
+    elif xdtype == "int64" and cls != "identical":
+        X = numpy.round(X * 10).astype(numpy.int64)
+    else:
+        xdtype = "float64"
     kmeans0 = bool(rng.rand() < 0.6) or cls == "frame"
     max_iter = int([2, 5, 10, 30][rng.randint(4)])
     rs = int(rng.randint(0, 1000))
     cfg = {"class": cls, "n": n, "k": k, "d": d, "n_mod_k": n % k, "strategy": strategy, "kmeans0": kmeans0,
+           "x_dtype": xdtype,
            "max_iter": max_iter, "random_state": rs, "sub": sub}
     ctx.cls("class=" + cls)
+    ctx.cls("x_dtype=" + xdtype)
     ctx.cls("n_mod_k>=2" if n % k >= 2 else "n_mod_k<2")
     K = "C07/%s/" % strategy
     Xin = pandas.DataFrame(X, columns=["c%d" % i for i in range(d)]) if cls == "frame" else X
@@ -187,19 +196,21 @@ def run_case(case, ctx):
         if not numpy.isfinite(C).all():
             return
         # ---- plain prediction: nearest centre
-        Q = numpy.vstack([X[:min(n, 6)], X[rng.randint(n, size=6)] + rng.randn(6, d), rng.randn(4, d) * 20])
+        Q = numpy.vstack([X[:min(n, 6)], X[rng.randint(n, size=6)] + rng.randn(6, d), rng.randn(4, d) * 20]).astype(
+            X.dtype)
         from scipy.spatial.distance import cdist
         p = numpy.asarray(m.predict(Q))
         ctx.hit("predict.nearest")
-        D = cdist(Q, C)
+        D = cdist(Q.astype(float), C)
         own = D[numpy.arange(len(Q)), numpy.clip(p, 0, k - 1)]
-        if p.min() < 0 or p.max() >= k or (own > D.min(axis=1) * (1 + 1e-9) + 1e-9).any():
+        rt = 1e-5 if X.dtype == numpy.float32 else 1e-9
+        if p.min() < 0 or p.max() >= k or (own > D.min(axis=1) * (1 + rt) + rt).any():
             ctx.violation(K + "predict/not-nearest-centre", "predict without balanced_predictions is not the "
                           "nearest centre", cfg=cfg)
         # ---- balanced predictions on several batch sizes
         m.set_params(balanced_predictions=True)
         for b in sorted({1, max(1, k - 1), k, k + 1, 3 * k + 2, min(n, 2 * k + 1)}):
-            B = X[rng.randint(n, size=b)] + rng.randn(b, d) * 0.5
+            B = (X[rng.randint(n, size=b)] + rng.randn(b, d) * 0.5).astype(X.dtype)
             numpy.random.seed(rs + b)
             try:
                 pb = numpy.asarray(m.predict(B))
